@@ -22,8 +22,8 @@ def lemmas(year):
              identity=lambda V: V('1040.35a') + V('1040.36') == V('1040.34'),
              text='refund (35a) plus amount applied to next year (36) equals the overpayment (34)'),
         dict(id='nc/overpayment', lines=['nc_d-400.28'],
-             identity=lambda V: z3.And(V('nc_d-400.28') == V('nc_d-400.25') - V('nc_d-400.19'), V('nc_d-400.28') >= 0),
-             text='NC line 28 (overpayment) equals line 25 minus line 19 and is non-negative whenever it has a value'),
+             identity=lambda V: z3.And(V('nc_d-400.28') == V('nc_d-400.25') - V('nc_d-400.19') - V('nc_d-400.26e'), V('nc_d-400.28') >= 0),
+             text='NC line 28 (overpayment) equals line 25 minus line 19 and any interest on line 26e (D-401: "Subtract Line 19 (and any amount shown on Line 26e) from Line 25") and is non-negative whenever it has a value'),
         dict(id='nc/tax-due', lines=['nc_d-400.26a'],
              identity=lambda V: z3.And(V('nc_d-400.26a') == V('nc_d-400.19') - V('nc_d-400.25'), V('nc_d-400.26a') > 0),
              text='NC line 26a (tax due) equals line 19 minus line 25 and is positive whenever it has a value'),
